@@ -98,7 +98,7 @@ type pkgInfo struct {
 var (
 	repo    = flag.String("repo", "/repo", "repository root")
 	outPath = flag.String("out", "", "output .v file (default stdout)")
-	extra   = flag.String("table", "", "optional extra table file: lines 'dir name fuel [T=type ...]'")
+	extra   = flag.String("table", "", "optional extra table file: lines 'dir name fuel [recv=Type] [T=type ...]'")
 )
 
 func modulePath() string {
@@ -1870,6 +1870,10 @@ func main() {
 			sp := spec{Dir: f[0], Name: f[1]}
 			fmt.Sscan(f[2], &sp.Fuel)
 			for _, kv := range f[3:] {
+				if strings.HasPrefix(kv, "recv=") {
+					sp.Recv = kv[len("recv="):]
+					continue
+				}
 				if i := strings.Index(kv, "="); i > 0 {
 					if sp.Inst == nil {
 						sp.Inst = map[string]string{}
